@@ -5,6 +5,7 @@ import (
 	"encoding/hex"
 	"errors"
 	"fmt"
+	"sync/atomic"
 
 	blsu "github.com/protolambda/bls12-381-util"
 	"github.com/protolambda/ztyp/codec"
@@ -71,20 +72,24 @@ func (p *BLSPubkey) Pubkey() (*blsu.Pubkey, error) {
 	return &pub, nil
 }
 
+// CachedPubkey decompresses its key on first use. Values are shared between goroutines (the pubkey cache hands
+// out pointers to its entries), so the cached result is published atomically; do not copy a CachedPubkey after first use.
 type CachedPubkey struct {
 	Compressed   BLSPubkey
-	decompressed *blsu.Pubkey
+	decompressed atomic.Pointer[blsu.Pubkey]
 }
 
 func (c *CachedPubkey) Pubkey() (*blsu.Pubkey, error) {
-	if c.decompressed == nil {
-		pub, err := c.Compressed.Pubkey()
-		if err != nil {
-			return nil, err
-		}
-		c.decompressed = pub
+	if pub := c.decompressed.Load(); pub != nil {
+		return pub, nil
 	}
-	return c.decompressed, nil
+	pub, err := c.Compressed.Pubkey()
+	if err != nil {
+		return nil, err
+	}
+	// concurrent first uses may both decompress; they store equal keys
+	c.decompressed.Store(pub)
+	return pub, nil
 }
 
 func ViewPubkey(pub *BLSPubkey) *BLSPubkeyView {
